@@ -276,6 +276,16 @@ def oracle(ctx, kind, p):
             idem_ok = False
         if idem_ok and o['reify_attributes'] and fmt:
             idem_ok = False    # reified attributes become concepts; relabelling then derives new prefixes
+        if idem_ok and o['canonicalize_roles']:
+            # the input must still be well formed once its roles are canonical: ':mod-of (x ...)' next
+            # to ':domain x' are two distinct triples that the normalisation table makes one
+            def canon_tree(nd):
+                return (nd[0], [((rm.canon_role(r.partition('~')[0]) + r.partition('~')[1] + r.partition('~')[2])
+                                 if r != '/' else r, canon_tree(t) if isinstance(t, tuple) else t)
+                                for r, t in nd[1]])
+            if not all(_trees.wellformed(canon_tree(nd), rm) for nd in nodes):
+                idem_ok = False
+                ctx.count('idempotence_skipped:canonicalisation-merges-triples')
         if idem_ok:
             ctx.count('idempotence_runs')
             ok, res3 = ctx.call(run_main, argv, out, clause='cli:main(second pass)')
